@@ -563,8 +563,8 @@ pub fn plan_for(id: &str, tier: &str) -> Option<Plan> {
         "C08" => {
             p.property = "C08";
             p.mon.gcv = true;
-            p.scope = Some(Scope { kind: ScopeKind::Parent, max_len: n(5, 8) });
-            p.n_random = n(200, 5000);
+            p.scope = Some(Scope { kind: ScopeKind::Parent, max_len: n(6, 8) });
+            p.n_random = n(600, 6000);
             p.profile.w_kind = [30, 10, 12, 3, 45];
             p.profile.valid_add_pct = 35;
             p.required = vec!["probe|", "gcv=not-found|add=accepted", "gcv=gone|add=conflict", "gcv=found", "probe:never-seen-client", "base=id"];
@@ -575,7 +575,7 @@ pub fn plan_for(id: &str, tier: &str) -> Option<Plan> {
             p.mon.isolation = true;
             p.compare = Compare::TwoRun;
             p.kinds = vec![Kind::MEM_LIB, Kind::SQL_LIB, Kind::MEM_HTTP, Kind::SQL_HTTP];
-            p.n_random = n(120, 3000);
+            p.n_random = n(240, 4000);
             p.profile.min_clients = 3;
             p.profile.max_clients = 4;
             p.profile.max_ops = 80;
@@ -595,7 +595,7 @@ pub fn plan_for(id: &str, tier: &str) -> Option<Plan> {
         "C11" => {
             p.property = "C11";
             p.mon.snapget = true;
-            p.n_random = n(200, 5000);
+            p.n_random = n(400, 6000);
             p.profile.w_kind = [45, 5, 35, 10, 5];
             p.profile.valid_add_pct = 80;
             p.required = vec!["getsnapshot:new", "getsnapshot:kept", "getsnapshot:none"];
@@ -613,7 +613,7 @@ pub fn plan_for(id: &str, tier: &str) -> Option<Plan> {
                 Kind::MEM_HTTP,
                 Kind { backend: Backend::Sqlite, entry: Entry::Http, reopen_pct: 40 },
             ];
-            p.n_random = n(200, 5000);
+            p.n_random = n(500, 6000);
             p.required = vec!["AddSnapshot|", "GetSnapshot|", "|conflict"];
             p.rule = "identical symbolic histories in lock step on in-memory, SQLite and SQLite reopened at 10/50/100% of the gaps (new storage object, schema setup re-run), library and HTTP entries compared within the same entry; responses abstracted by id role and the client record (latest, snapshot version, versions-since) compared after every operation.";
         }
@@ -622,7 +622,7 @@ pub fn plan_for(id: &str, tier: &str) -> Option<Plan> {
             p.mon.facts = true;
             p.compare = Compare::Twin;
             p.kinds = vec![Kind::MEM_LIB, Kind::MEM_HTTP, Kind::SQL_LIB, Kind::SQL_HTTP];
-            p.n_random = n(250, 6000);
+            p.n_random = n(800, 8000);
             p.required = vec!["row:AddVersion:accepted-urgency-None", "row:AddVersion:accepted-urgency-Low", "row:AddVersion:accepted-urgency-High", "row:AddVersion:conflict", "row:GetChildVersion:found", "row:GetChildVersion:not-found", "row:GetChildVersion:gone", "row:AddSnapshot:snap-ok", "row:AddSnapshot:no-such-client", "row:GetSnapshot:snapshot", "row:GetSnapshot:no-snapshot"];
             p.rule = "every operation is executed through the HTTP handlers and through the library on twin storages of the same kind; the raw HTTP response (status, id headers, X-Snapshot-Request, content type, body, headers that must be absent) is checked against the decode-table row of the library outcome. snapshot_versions=4 so that urgency none/low/high all occur in real histories.";
         }
@@ -638,7 +638,7 @@ pub fn plan_for(id: &str, tier: &str) -> Option<Plan> {
         "C12H" => {
             p.property = "C12";
             p.mon.counter = true;
-            p.n_random = n(150, 4000);
+            p.n_random = n(400, 5000);
             p.profile.w_kind = [60, 3, 25, 4, 8];
             p.profile.valid_add_pct = 85;
             p.required = vec!["urgency:High", "urgency:Low", "urgency:None", "since:0", "since:6", "plant:sweep-versions:t=overflowing-u32", "plant:sweep-days:t=overflowing-i64", "plant:sweep-versions:t=0", "plant:sweep-days:t=1", "plant:sweep-versions:t=small-odd:Low"];
